@@ -6825,6 +6825,9 @@ class SemanticAnalyzer(
                 if isinstance(node, TypeInfo):
                     nextsym = node.get(part)
                 elif isinstance(node, MypyFile):
+                    # What the rest of the name means depends on this module's namespace
+                    # (not only on the module that defines the final symbol).
+                    self.record_imported_symbol(sym)
                     nextsym = self.get_module_symbol(node, part)
                     namespace = node.fullname
                 elif isinstance(node, PlaceholderNode):
